@@ -81,3 +81,135 @@ Check C14_fits_satisfiable : forall (dcell : row -> Obs.bytes) (o : opts) (now :
 Print Assumptions C14_fits_satisfiable.
 
 
+
+(** ---- what the cells contain (not only how wide they are) ---- *)
+From SQ Require Import Base Display LayoutProof CellContents.
+
+
+(** the number printer emits decimal digits only *)
+Theorem C14_number_digits : forall n : N, Forall (fun c : N => 48 <= c <= 57) (Obs.dec n).
+Proof. exact dec_digits_all. Qed.
+Check C14_number_digits : forall n : N, Forall (fun c : N => 48 <= c <= 57) (Obs.dec n).
+Print Assumptions C14_number_digits.
+
+(** ... which read back as the number (no digit lost or permuted), for every number below 10^400 *)
+Theorem C14_number_value : forall n : N, n < 10 ^ 400 -> value_of (Obs.dec n) 0 = n.
+Proof. exact dec_value. Qed.
+Check C14_number_value : forall n : N, n < 10 ^ 400 -> value_of (Obs.dec n) 0 = n.
+Print Assumptions C14_number_value.
+
+(** ... without a leading zero *)
+Theorem C14_number_no_leading_zero : forall n : N, 0 < n -> n < 10 ^ 400 -> hd 0 (Obs.dec n) <> 48.
+Proof. exact dec_no_leading_zero. Qed.
+Check C14_number_no_leading_zero : forall n : N, 0 < n -> n < 10 ^ 400 -> hd 0 (Obs.dec n) <> 48.
+Print Assumptions C14_number_no_leading_zero.
+
+(** signed numbers: a minus sign followed by the digits of the absolute value *)
+Theorem C14_signed_number : forall z : Z, Obs.decz z = (if (z <? 0)%Z then [45] else []) ++ Obs.dec (Z.to_N (Z.abs z)).
+Proof. exact decz_value. Qed.
+Check C14_signed_number : forall z : Z, Obs.decz z = (if (z <? 0)%Z then [45] else []) ++ Obs.dec (Z.to_N (Z.abs z)).
+Print Assumptions C14_signed_number.
+
+(** hex digits are 0-9 A-F *)
+Theorem C14_hex_digit : forall d : N, d < 16 -> Obs.hexdigit d = nth (N.to_nat d) (Obs.str "0123456789ABCDEF") 0.
+Proof. exact hexdigit_spec. Qed.
+Check C14_hex_digit : forall d : N, d < 16 -> Obs.hexdigit d = nth (N.to_nat d) (Obs.str "0123456789ABCDEF") 0.
+Print Assumptions C14_hex_digit.
+
+(** the SQWK cell of a known code is exactly four decimal digits with that value (leading zeros kept), followed by the threat marker position *)
+Theorem C14_squawk_cell : forall (now : Z) (dcell : row -> Obs.bytes) (r : row) (s : N), r_squawk r = Some s -> s < 10000 -> exists ds : list N, cell_named now dcell r "SQWK" = ds ++ threat_mark r /\ Datatypes.length ds = 4%nat /\ Forall (fun c : N => 48 <= c <= 57) ds /\ value_of ds 0 = s.
+Proof. exact squawk_cell_some. Qed.
+Check C14_squawk_cell : forall (now : Z) (dcell : row -> Obs.bytes) (r : row) (s : N), r_squawk r = Some s -> s < 10000 -> exists ds : list N, cell_named now dcell r "SQWK" = ds ++ threat_mark r /\ Datatypes.length ds = 4%nat /\ Forall (fun c : N => 48 <= c <= 57) ds /\ value_of ds 0 = s.
+Print Assumptions C14_squawk_cell.
+
+(** ... and four blanks when unknown *)
+Theorem C14_squawk_cell_blank : forall (now : Z) (dcell : row -> Obs.bytes) (r : row), r_squawk r = None -> cell_named now dcell r "SQWK" = [32; 32; 32; 32] ++ threat_mark r.
+Proof. exact squawk_cell_none. Qed.
+Check C14_squawk_cell_blank : forall (now : Z) (dcell : row -> Obs.bytes) (r : row), r_squawk r = None -> cell_named now dcell r "SQWK" = [32; 32; 32; 32] ++ threat_mark r.
+Print Assumptions C14_squawk_cell_blank.
+
+(** the W cell shows the wake-class letter of the recorded category per the specification, or a blank *)
+Theorem C14_wake_cell : forall (now : Z) (dcell : row -> Obs.bytes) (r : row), cell_named now dcell r "W" = match Ia5.wake_spec (fst (category r)) (snd (category r)) with | Some w => [w; 32] | None => [32; 32] end.
+Proof. exact wake_cell. Qed.
+Check C14_wake_cell : forall (now : Z) (dcell : row -> Obs.bytes) (r : row), cell_named now dcell r "W" = match Ia5.wake_spec (fst (category r)) (snd (category r)) with | Some w => [w; 32] | None => [32; 32] end.
+Print Assumptions C14_wake_cell.
+
+(** ALT B: the altitude right-aligned in 5 columns followed by its source mark *)
+Theorem C14_altitude_cell : forall (now : Z) (dcell : row -> Obs.bytes) (r : row) (a : N), r_altitude r = Some a -> a < 100000 -> exists body : list N, cell_named now dcell r "ALT B" = body ++ [altitude_source r] /\ right_aligned 5 (Obs.dec a) body.
+Proof. exact altitude_cell_some. Qed.
+Check C14_altitude_cell : forall (now : Z) (dcell : row -> Obs.bytes) (r : row) (a : N), r_altitude r = Some a -> a < 100000 -> exists body : list N, cell_named now dcell r "ALT B" = body ++ [altitude_source r] /\ right_aligned 5 (Obs.dec a) body.
+Print Assumptions C14_altitude_cell.
+
+(** ... all blank, mark included, when unknown *)
+Theorem C14_altitude_cell_blank : forall (now : Z) (dcell : row -> Obs.bytes) (r : row), r_altitude r = None -> cell_named now dcell r "ALT B" = spaces 6.
+Proof. exact altitude_cell_none. Qed.
+Check C14_altitude_cell_blank : forall (now : Z) (dcell : row -> Obs.bytes) (r : row), r_altitude r = None -> cell_named now dcell r "ALT B" = spaces 6.
+Print Assumptions C14_altitude_cell_blank.
+
+(** TRK: value right-aligned in 3 columns plus source mark *)
+Theorem C14_track_cell : forall (now : Z) (dcell : row -> Obs.bytes) (r : row) (v : N), track r = Some v -> v < 1000 -> exists body : list N, cell_named now dcell r "TRK" = body ++ [track_source r] /\ right_aligned 3 (Obs.dec v) body.
+Proof. exact track_cell_some. Qed.
+Check C14_track_cell : forall (now : Z) (dcell : row -> Obs.bytes) (r : row) (v : N), track r = Some v -> v < 1000 -> exists body : list N, cell_named now dcell r "TRK" = body ++ [track_source r] /\ right_aligned 3 (Obs.dec v) body.
+Print Assumptions C14_track_cell.
+
+(** ... all blank, mark included, when unknown *)
+Theorem C14_track_cell_blank : forall (now : Z) (dcell : row -> Obs.bytes) (r : row), track r = None -> cell_named now dcell r "TRK" = spaces 4.
+Proof. exact track_cell_none. Qed.
+Check C14_track_cell_blank : forall (now : Z) (dcell : row -> Obs.bytes) (r : row), track r = None -> cell_named now dcell r "TRK" = spaces 4.
+Print Assumptions C14_track_cell_blank.
+
+(** HDG likewise *)
+Theorem C14_heading_cell_blank : forall (now : Z) (dcell : row -> Obs.bytes) (r : row), r_heading r = None -> cell_named now dcell r "HDG" = spaces 4.
+Proof. exact heading_cell_none. Qed.
+Check C14_heading_cell_blank : forall (now : Z) (dcell : row -> Obs.bytes) (r : row), r_heading r = None -> cell_named now dcell r "HDG" = spaces 4.
+Print Assumptions C14_heading_cell_blank.
+
+(** VRATE: signed value right-aligned in 5 columns plus source mark *)
+Theorem C14_vrate_cell : forall (now : Z) (dcell : row -> Obs.bytes) (r : row) (v : Z), vrate r = Some v -> (-10000 < v < 100000)%Z -> exists body : list N, cell_named now dcell r "VRATE" = body ++ [vrate_source r] /\ right_aligned 5 (Obs.decz v) body.
+Proof. exact vrate_cell_some. Qed.
+Check C14_vrate_cell : forall (now : Z) (dcell : row -> Obs.bytes) (r : row) (v : Z), vrate r = Some v -> (-10000 < v < 100000)%Z -> exists body : list N, cell_named now dcell r "VRATE" = body ++ [vrate_source r] /\ right_aligned 5 (Obs.decz v) body.
+Print Assumptions C14_vrate_cell.
+
+(** ... all blank when unknown *)
+Theorem C14_vrate_cell_blank : forall (now : Z) (dcell : row -> Obs.bytes) (r : row), vrate r = None -> cell_named now dcell r "VRATE" = spaces 6.
+Proof. exact vrate_cell_none. Qed.
+Check C14_vrate_cell_blank : forall (now : Z) (dcell : row -> Obs.bytes) (r : row), vrate r = None -> cell_named now dcell r "VRATE" = spaces 6.
+Print Assumptions C14_vrate_cell_blank.
+
+(** PTH: one character per age (position, track, heading): the hex digit of (age / 10 s) mod 16, or a blank *)
+Theorem C14_age_digits : forall (now : Z) (dcell : row -> Obs.bytes) (r : row), cell_named now dcell r "PTH" = [age_char now (position_t r); age_char now (track_t r); age_char now (heading_t r); 32].
+Proof. exact pth_cell. Qed.
+Check C14_age_digits : forall (now : Z) (dcell : row -> Obs.bytes) (r : row), cell_named now dcell r "PTH" = [age_char now (position_t r); age_char now (track_t r); age_char now (heading_t r); 32].
+Print Assumptions C14_age_digits.
+
+(** the age digit wraps every 160 s and never leaves 0-F *)
+Theorem C14_age_digit : forall now t : Z, (0 <= num_seconds now t)%Z -> age10 now (Some t) = [Obs.hexdigit (Z.to_N ((num_seconds now t / 10) mod 16))].
+Proof. exact age10_some. Qed.
+Check C14_age_digit : forall now t : Z, (0 <= num_seconds now t)%Z -> age10 now (Some t) = [Obs.hexdigit (Z.to_N ((num_seconds now t / 10) mod 16))].
+Print Assumptions C14_age_digit.
+
+(** LC: for 0 <= age < 100 two characters whose value is the age *)
+Theorem C14_last_contact_cell : forall (now : Z) (r : row), let a := num_seconds now (timestamp r) in (0 <= a < 100)%Z -> age_cell now r = (if (a <? 10)%Z then [32; 48 + Z.to_N a] else [48 + Z.to_N a / 10; 48 + Z.to_N a mod 10]) /\ Datatypes.length (age_cell now r) = 2%nat /\ value_of (age_cell now r) 0 = Z.to_N a.
+Proof. exact age_cell_value. Qed.
+Check C14_last_contact_cell : forall (now : Z) (r : row), let a := num_seconds now (timestamp r) in (0 <= a < 100)%Z -> age_cell now r = (if (a <? 10)%Z then [32; 48 + Z.to_N a] else [48 + Z.to_N a / 10; 48 + Z.to_N a mod 10]) /\ Datatypes.length (age_cell now r) = 2%nat /\ value_of (age_cell now r) 0 = Z.to_N a.
+Print Assumptions C14_last_contact_cell.
+
+(** RG: the country code in full (never truncated), padded to two columns *)
+Theorem C14_country_cell : forall (now : Z) (dcell : row -> Obs.bytes) (r : row), cell_named now dcell r "RG" = Obs.str (reg r) ++ spaces (2 - length (reg r)) ++ [32].
+Proof. exact country_cell. Qed.
+Check C14_country_cell : forall (now : Z) (dcell : row -> Obs.bytes) (r : row), cell_named now dcell r "RG" = Obs.str (reg r) ++ spaces (2 - length (reg r)) ++ [32].
+Print Assumptions C14_country_cell.
+
+(** LATITUDE / LONGITUDE digits: sign, integer part, point, five decimals, together the value rounded half-to-even at 1e-5 *)
+Theorem C14_position_cells : forall q : Q, (Qabs.Qabs q <= 999)%Q -> let n := round_half_even (Qabs.Qabs q * 100000) in exists ip fd : list N, fmt_fixed 5 q = (if Qlt_bool q 0 then [45] else []) ++ ip ++ [46] ++ fd /\ ip = Obs.dec (Z.to_N (n / 100000)) /\ (1 <= Datatypes.length ip <= 3)%nat /\ Datatypes.length fd = 5%nat /\ Forall (fun c : N => 48 <= c <= 57) (ip ++ fd) /\ Z.of_N (value_of (ip ++ fd) 0) = n /\ (Qabs.Qabs ((n # 1) - Qabs.Qabs q * 100000) <= 1 # 2)%Q.
+Proof. exact fmt_fixed_5. Qed.
+Check C14_position_cells : forall q : Q, (Qabs.Qabs q <= 999)%Q -> let n := round_half_even (Qabs.Qabs q * 100000) in exists ip fd : list N, fmt_fixed 5 q = (if Qlt_bool q 0 then [45] else []) ++ ip ++ [46] ++ fd /\ ip = Obs.dec (Z.to_N (n / 100000)) /\ (1 <= Datatypes.length ip <= 3)%nat /\ Datatypes.length fd = 5%nat /\ Forall (fun c : N => 48 <= c <= 57) (ip ++ fd) /\ Z.of_N (value_of (ip ++ fd) 0) = n /\ (Qabs.Qabs ((n # 1) - Qabs.Qabs q * 100000) <= 1 # 2)%Q.
+Print Assumptions C14_position_cells.
+
+(** ... both blank while no position is known *)
+Theorem C14_position_hidden : forall (now : Z) (dcell : row -> Obs.bytes) (r : row), pos_shown r = false -> cell_named now dcell r "LATITUDE" = spaces 10 /\ cell_named now dcell r "LONGITUDE" = spaces 12.
+Proof. exact position_cells_hidden. Qed.
+Check C14_position_hidden : forall (now : Z) (dcell : row -> Obs.bytes) (r : row), pos_shown r = false -> cell_named now dcell r "LATITUDE" = spaces 10 /\ cell_named now dcell r "LONGITUDE" = spaces 12.
+Print Assumptions C14_position_hidden.
+
+
